@@ -160,7 +160,7 @@ class Region:
             return ("m", n) not in self.bt and not (a == "lock" and ("m", n) in self.vt)
         if a == "own":
             x["own"], x["explicit"], x["ce"] = True, True, False
-            return True
+            return (kind, n) not in self.bt
         if a == "free":
             del self.hs[h]
             others = self.live(x["inc"], kind)
@@ -313,8 +313,10 @@ def judge(fam, ops, masked=True):
         if ops[i].strip() == "obs":
             c, s = mask_obs(c, snap), mask_obs(s, snap)
         elif not ok:
-            if waits:
-                return None          # the driver stops here; nothing after it can be judged
+            if waits or c in ("TIMEOUT", "died"):
+                # the driver stops here / the worker was lost in a wait the statements do not determine (its other
+                # handles went with it): nothing after this op can be judged
+                return None
             continue
         if waits:
             return None if c in ("TIMEOUT",) else {"kind": "spec", "at": i, "impl": c, "spec": s,
@@ -359,6 +361,19 @@ def shrink(fam, ops, r, budget=50, wall_s=40.0):
             break
         chunk = max(1, chunk // 2) if chunk > 1 else (1 if progressed else 0)
     return cur
+
+
+def drop_waits(ops, inode_reuse=False):
+    """without the acquires / locks whose outcome the statements do not determine (they may wait for ever under
+    System V: T1, U3, K1); by the Region rules alone, no model run"""
+    ops = list(ops)
+    for _ in range(6):
+        reg = regions(ops, inode_reuse)
+        bad = set(i for i, o in enumerate(ops) if len(o.split()) == 3 and o.split()[1] in ("acq", "lock") and not reg[i][0])
+        if not bad:
+            break
+        ops = [o for i, o in enumerate(ops) if i not in bad]
+    return ops
 
 
 def prefilter(ops, rounds=8):
@@ -676,7 +691,7 @@ def run_c06(chk, cfg, exhaustive_cases):
     directed = [d for d in c06mod.DIRECTED if not any(" 70000 " in o for o in d)] + C06_DIRECTED
     R.run([prefilter(d) for d in directed], batch=1)
     ex = list(exhaustive_cases)
-    ex = rng.sample(ex, min(len(ex), 1200 if thorough else 240))
+    ex = [drop_waits(c) for c in rng.sample(ex, min(len(ex), 1200 if thorough else 240))]
     R.run(ex, batch=40)
     nr = 500 if thorough else 160
     rnd = [gen_history(rng, chk, rng.choice([8, 25, 60]), sem_w=1.0, shm_w=0.0) for _ in range(nr)]      # legal by construction (Region)
